@@ -9,7 +9,8 @@ from .. import eleccommon as ec
 
 def _model(spec):
     rng = np.random.Generator(np.random.PCG64(spec["model_seed"]))
-    m = SynthModel(rng, spec["N"], spec["n"], scale=0.03, gap=0.02, quad=0.004, mass=10 ** rng.uniform(2.5, 3.5, size=spec["n"]))
+    m = SynthModel(rng, spec["N"], spec["n"], scale=0.03, gap=0.02, quad=0.004, mass=10 ** rng.uniform(2.5, 3.5, size=spec["n"]),
+                   representation=spec.get("representation", "adiabatic"))
     rho0 = random_rho(rng, spec["N"], "pure")
     return m, rho0, rng
 
@@ -117,8 +118,8 @@ ORACLES = {"reverse": oracle_reverse, "order": oracle_order}
 def run(ctx):
     ctx.rule = ("single hop-free steps of the real TrajectorySH on synthetic smooth models (N=2..4 states, n=1..3 dims, unequal "
                 "masses, coherent rho), every piece compared with the model: Verlet update, midpoint generator (true midpoint "
-                "velocity), exponential step with the captured eigh; forward/reverse runs (FSSH exp integrator, single-surface MD) "
-                "and Richardson triples dt, dt/2, dt/4 for both integrators. Non-trivial = n>=2 or N>=3; distinct by (check, N, n, integrator)")
+                "velocity), exponential step with the captured eigh; forward/reverse runs (FSSH exp integrator, single-surface MD; also released from "
+                "rest and in the diabatic representation) and Richardson levels dt..dt/8 for both integrators in both representations. Non-trivial = n>=2 or N>=3; distinct by (check, N, n, integrator)")
     ctx.assumptions += ["order two itself is not a Lean theorem (symmetric + consistent => even order is cited); tested by Richardson ratios",
                         "the reversed run continues the adiabatic gauge of the forward run (its final electronics object is passed on)"]
     ctx.fingerprints["mudslide/trajectory_sh.py"] = fingerprint(
@@ -170,12 +171,16 @@ def run(ctx):
             ctx.corr_mismatch("step.generator", spec, "W differs from both variants")
         if not same(rm, after["rho"]):
             ctx.corr_mismatch("step.expstep", spec, "rho' differs")
-    for i in range(ctx.budget(8, 150)):
+    for i in range(ctx.budget(12, 150)):
         N, n = int(rng.integers(2, 4)), int(rng.integers(1, 3))
         spec = dict(N=N, n=n, model_seed=int(rng.integers(1, 10 ** 6)), x0=list(rng.normal(size=n) * 0.5), p0=list(rng.normal(size=n) * 10 + 5),
                     state=int(rng.integers(0, N)), dt=float(rng.choice([2.0, 5.0])), steps=int(rng.integers(10, 40)), md=(i % 4 == 3))
+        if i % 4 == 1:
+            spec["p0"] = [0.0] * n                      # released from rest: the first midpoint velocity averages with exactly zero
+        if i % 4 == 2:
+            spec["representation"] = "diabatic"         # non-diagonal electronic Hamiltonian, no derivative coupling
         ok, obs, req, text = oracle_reverse(spec)
-        ctx.case(("reverse", "md" if spec["md"] else "fssh", N, n))
+        ctx.case(("reverse", "md" if spec["md"] else "fssh", N, n, i % 4))
         ctx.count("reverse_runs")
         if "rho_error" in obs:
             ctx.monitor("max_reverse_rho_error", obs["rho_error"])
@@ -184,12 +189,14 @@ def run(ctx):
             if not spec["md"] and obs.get("rho_error", 0) > 1e-9 and obs.get("x_error", 1) <= 1e-9:
                 sig = "last-velocity-alias"
             ctx.oracle_fail(sig, "reverse", spec, obs, req, text)
-    for i in range(ctx.budget(4, 60)):
+    for i in range(ctx.budget(8, 60)):
         N, n = int(rng.integers(2, 4)), int(rng.integers(1, 3))
         spec = dict(N=N, n=n, model_seed=int(rng.integers(1, 10 ** 6)), x0=list(rng.normal(size=n) * 0.5), p0=list(rng.normal(size=n) * 10 + 5),
                     state=int(rng.integers(0, N)), dt=4.0, steps=16, integ=["exp", "linear-rk4"][i % 2], max_edt=0.5)
+        if (i // 2) % 2 == 1:
+            spec["representation"] = "diabatic"
         ok, obs, req, text = oracle_order(spec)
-        ctx.case(("order", spec["integ"], N, n))
+        ctx.case(("order", spec["integ"], N, n, spec.get("representation", "adiabatic")))
         ctx.count("richardson_triples")
         if "rho" in obs:
             ctx.monitor("min_rho_ratio_neg", -obs["rho"]["ratio"])
